@@ -61,7 +61,7 @@ pub fn props_of(case: &Value) -> Vec<&'static str> {
     let st = case["status"].as_str().unwrap_or("");
     if st != "ok" && st != "fail" { return vec![]; }
     match case["slice"].as_str().unwrap_or("") {
-        "fn" => vec!["C13"],
+        "fn" => vec!["C13", "C17"],
         "sess" => vec!["C06", "C08", "C09"],
         _ => vec!["C06", "C07", "C08", "C09", "C10"],
     }
@@ -93,6 +93,9 @@ pub fn replay(case: &Value) -> Vec<Obs> {
 
     let owner: &'static str = if slice == "fn" { "C13" } else { "C06" };
     if model_agrees { obs.push(Obs::ok(owner, "result")); } else { obs.push(Obs::bad(owner, "result", detail())); }
+    if slice == "fn" && pairs_t.iter().any(|(l, r)| mentions_fn(l, "join") || mentions_fn(r, "join")) {
+        if model_agrees { obs.push(Obs::ok("C17", "join")); } else { obs.push(Obs::bad("C17", "join", detail())); }
+    }
     if has_anon && slice != "fn" {
         if model_agrees && !out.anon_bound { obs.push(Obs::ok("C09", "anon")); }
         else { obs.push(Obs::bad("C09", if out.anon_bound { "anon-bound" } else { "result" }, detail())); }
@@ -141,4 +144,13 @@ pub fn replay(case: &Value) -> Vec<Obs> {
         }
     }
     obs
+}
+
+fn mentions_fn(t: &Tm, name: &str) -> bool {
+    match t {
+        Tm::Fn(f, a) => f == name || a.iter().any(|x| mentions_fn(x, name)),
+        Tm::Cx(_, a) => a.iter().any(|x| mentions_fn(x, name)),
+        Tm::List(a, _) => a.iter().any(|x| mentions_fn(x, name)),
+        _ => false,
+    }
 }
